@@ -12,14 +12,12 @@ open Headers
 theorem handleCommitMeta_step {cfg : Cfg} {m m' : M} {l : L} {b : Bool}
     (e : handleCommitMeta cfg m l = .ok (b, m')) (g : Good m) : StepS m m' := by
   unfold handleCommitMeta at e
+  obtain ⟨c1, _⟩ := pendingDiffName_reachC cfg (Reach.start g).flushMP
+  have c2 : ReachC m { pendingDiffName cfg (flushMP m) with st := State.commitMeta } :=
+    c1.upd rfl rfl rfl rfl rfl rfl
   split at e
   · cases e; exact StepS.refl g
-  · simp only [bind_ok, pure, Except.pure, Except.ok.injEq] at e
-    obtain ⟨m1, e1, e⟩ := e
-    obtain ⟨c1, _⟩ := pendingDiffName_reachC cfg (Reach.start g).flushMP e1
-    have c2 : ReachC m { m1 with st := State.commitMeta } := c1.upd rfl rfl rfl rfl rfl rfl
-    obtain ⟨sh, _, e⟩ := e
-    split at e
+  · split at e
     · split at e
       · cases e; exact c2.emit.stepS
       · cases e; exact (c2.emit.direct _ (by simp)).stepS
@@ -32,18 +30,16 @@ theorem handleDiffStat_step {cfg : Cfg} {m m' : M} {l : L} {b : Bool}
 theorem handleDiffHeaderDiff_step {cfg : Cfg} {m m' : M} {l : L} {b : Bool}
     (e : handleDiffHeaderDiff cfg m l = .ok (b, m')) (g : Good m) : StepS m m' := by
   unfold handleDiffHeaderDiff at e
+  have c1 : ReachC m { flushMP m with st := diffLineState l } :=
+    (Reach.start g).flushMP.upd rfl rfl rfl rfl rfl rfl
+  obtain ⟨c2, _⟩ := pendingDiffName_reachC cfg c1
+  have c3 : ReachC m (diffLineFields (pendingDiffName cfg { flushMP m with st := diffLineState l }) l) :=
+    c2.upd rfl rfl rfl rfl rfl rfl
   split at e
   · cases e; exact StepS.refl g
-  · simp only [bind_ok, pure, Except.pure, Except.ok.injEq] at e
-    obtain ⟨m2, e2, name, _, sk, _, e⟩ := e
-    have c1 : ReachC m { flushMP m with st := (if startsWithAny l.text Generated.Markers.combinedDiffLine = true
-        then State.diffHeader (.combined .unknown false) else State.diffHeader .unified) } :=
-      (Reach.start g).flushMP.upd rfl rfl rfl rfl rfl rfl
-    obtain ⟨c2, _⟩ := pendingDiffName_reachC cfg c1 e2
-    split at e
-    · cases e; exact ReachC.stepS (c2.upd rfl rfl rfl rfl rfl rfl)
-    · cases e
-      exact ReachC.stepS (Reach.emitLineUnchanged l (c2.toReach.upd rfl rfl rfl rfl rfl rfl))
+  · split at e
+    · cases e; exact c3.stepS
+    · cases e; exact (c3.toReach.emitLineUnchanged l).stepS
 
 theorem shouldWriteGeneric_reachC (cfg : Cfg) {m0 m : M} (l : L) (h : Reach m0 m) :
     (shouldWriteGeneric cfg m l).1 = true → ReachC m0 (shouldWriteGeneric cfg m l).2 := by
@@ -61,32 +57,24 @@ theorem fileOpUpdate_reach {m0 m : M} (ev : FileEvent) (nm : Str) (h : Reach m0 
   unfold fileOpUpdate
   split <;> first | exact ⟨h.upd rfl rfl rfl rfl rfl rfl, rfl⟩ | exact ⟨h, rfl⟩
 
-theorem fileOpFinish_step {cfg : Cfg} {m0 m1 m' : M} {l : L} {b : Bool}
-    (e : fileOpFinish cfg m1 l = .ok (b, m')) (g : Good m0) (h : Reach m0 m1) (hs : m1.st = m0.st) :
-    StepS m0 m' := by
-  unfold fileOpFinish at e
-  split at e
+theorem fileOpFinish_step {cfg : Cfg} {m0 m1 : M} {l : L}
+    (g : Good m0) (h : Reach m0 m1) (hs : m1.st = m0.st) : StepS m0 (fileOpFinish cfg m1 l).2 := by
+  unfold fileOpFinish
+  split
   · rename_i hw
-    simp only [Except.ok.injEq, Prod.mk.injEq] at e
-    obtain ⟨_, rfl⟩ := e
     exact (shouldWriteGeneric_reachC cfg l h hw).stepS
-  · split at e
-    · cases e
-    · simp only [Except.ok.injEq, Prod.mk.injEq] at e
-      obtain ⟨_, rfl⟩ := e
-      exact h.stepS_of g hs
+  · exact h.stepS_of g hs
 
 theorem handleFileOperation_step {cfg : Cfg} {m m' : M} {l : L} {b : Bool}
     (e : handleFileOperation cfg m l = .ok (b, m')) (g : Good m) : StepS m m' := by
   unfold handleFileOperation at e
   split at e
   · cases e; exact StepS.refl g
-  · split at e
-    · cases e
-    · split at e
-      · cases e
-      · obtain ⟨r, hs⟩ := fileOpUpdate_reach (m := m) _ _ (Reach.start g)
-        exact fileOpFinish_step e g r hs
+  · simp only [Except.ok.injEq] at e
+    obtain rfl : m' = _ := (congrArg Prod.snd e).symm
+    obtain ⟨r, hs⟩ := fileOpUpdate_reach (m := m) (parseDiffHeaderLine l.text (decide (m.source = Source.gitDiff))).2
+      ((repeatedFilePath m.diffLine m.diffLineG).getD []) (Reach.start g)
+    exact fileOpFinish_step g r hs
 
 theorem shouldWriteGeneric_stepS (cfg : Cfg) {m0 m1 : M} (l : L) (c : ReachC m0 m1) :
     StepS m0 (shouldWriteGeneric cfg m1 l).2 := by
@@ -99,43 +87,31 @@ theorem handleMinusLine_step {cfg : Cfg} {m m' : M} {l : L} {b : Bool}
   unfold handleMinusLine at e
   split at e
   · cases e; exact StepS.refl g
-  · split at e
-    · cases e
-    · simp only [Except.ok.injEq] at e
-      obtain rfl : m' = _ := (congrArg Prod.snd e).symm
-      refine shouldWriteGeneric_stepS cfg l (Reach.flushMP ?_)
-      exact (Reach.start g).upd rfl rfl rfl rfl rfl rfl
+  · simp only [Except.ok.injEq] at e
+    obtain rfl : m' = _ := (congrArg Prod.snd e).symm
+    refine shouldWriteGeneric_stepS cfg l (Reach.flushMP ?_)
+    exact (Reach.start g).upd rfl rfl rfl rfl rfl rfl
 
-theorem plusLineFinish_step {cfg : Cfg} {m0 m1 m' : M} {l : L} {b : Bool}
-    (e : plusLineFinish cfg m1 l = .ok (b, m')) (h : ReachC m0 m1) : StepS m0 m' := by
-  unfold plusLineFinish at e
-  split at e
+theorem plusLineFinish_step {cfg : Cfg} {m0 m1 : M} {l : L} (h : ReachC m0 m1) :
+    StepS m0 (plusLineFinish cfg m1 l).2 := by
+  unfold plusLineFinish
+  split
   · rename_i hw
-    simp only [Except.ok.injEq, Prod.mk.injEq] at e
-    obtain ⟨_, rfl⟩ := e
     exact (shouldWriteGeneric_reachC cfg l h.toReach hw).stepS
-  · split at e
-    · cases e
-    · split at e
-      · simp only [Except.ok.injEq, Prod.mk.injEq] at e
-        obtain ⟨_, rfl⟩ := e
-        exact ReachC.stepS ((h.emit.handleHeaderLine cfg (decide (m1.source = Source.diffUnified)) (by simp)).upd
-          rfl rfl rfl rfl rfl rfl)
-      · simp only [Except.ok.injEq, Prod.mk.injEq] at e
-        obtain ⟨_, rfl⟩ := e
-        exact h.stepS
+  · split
+    · exact ReachC.stepS ((h.emit.handleHeaderLine cfg (decide (m1.source = Source.diffUnified)) (by simp)).upd
+        rfl rfl rfl rfl rfl rfl)
+    · exact h.stepS
 
 theorem handlePlusLine_step {cfg : Cfg} {m m' : M} {l : L} {b : Bool}
     (e : handlePlusLine cfg m l = .ok (b, m')) (g : Good m) : StepS m m' := by
   unfold handlePlusLine at e
   split at e
   · cases e; exact StepS.refl g
-  · split at e
-    · cases e
-    · rename_i path ev _
-      exact plusLineFinish_step e
-        ((Reach.start g).upd (m' := { m with plusFile := path, plusEvent := ev, currentPair := some (m.minusFile, path) })
-          rfl rfl rfl rfl rfl rfl).flushMP
+  · simp only [Except.ok.injEq] at e
+    obtain rfl : m' = _ := (congrArg Prod.snd e).symm
+    refine plusLineFinish_step (Reach.flushMP ?_)
+    exact (Reach.start g).upd rfl rfl rfl rfl rfl rfl
 
 theorem handleHunkHeader_step {cfg : Cfg} {m m' : M} {l : L} {b : Bool}
     (e : handleHunkHeader cfg m l = .ok (b, m')) (g : Good m) : StepS m m' := by
@@ -143,22 +119,17 @@ theorem handleHunkHeader_step {cfg : Cfg} {m m' : M} {l : L} {b : Bool}
   split at e
   · cases e; exact StepS.refl g
   · split at e
-    · cases e
     · cases e; exact StepS.refl g
     · cases e
-      (refine Reach.stepS_free ?_ rfl rfl; exact (Reach.start g).upd rfl rfl rfl rfl rfl rfl)
+      exact stepS_upd_free g rfl rfl rfl rfl rfl rfl rfl rfl
 
 theorem handleModeLine_step {cfg : Cfg} {m m' : M} {l : L} {b : Bool}
     (e : handleModeLine cfg m l = .ok (b, m')) (g : Good m) : StepS m m' := by
   unfold handleModeLine at e
   split at e
+  · split at e <;> (cases e; exact stepS_upd_free g rfl rfl rfl rfl rfl rfl rfl rfl)
   · split at e
-    · cases e
     · split at e <;> (cases e; exact stepS_upd_free g rfl rfl rfl rfl rfl rfl rfl rfl)
-  · split at e
-    · split at e
-      · cases e
-      · split at e <;> (cases e; exact stepS_upd_free g rfl rfl rfl rfl rfl rfl rfl rfl)
     · cases e; exact StepS.refl g
 
 theorem handleAdditionalCases_step {cfg : Cfg} {m m' : M} {l : L} {b : Bool} {to : State}
@@ -166,7 +137,6 @@ theorem handleAdditionalCases_step {cfg : Cfg} {m m' : M} {l : L} {b : Bool} {to
   unfold handleAdditionalCases at e
   have c : ReachC m { flushMP m with st := to } := (Reach.start g).flushMP.upd rfl rfl rfl rfl rfl rfl
   split at e
-  · cases e
   · cases e; exact (c.emit.writeGeneric cfg _ _ (by simp)).stepS
   · cases e; exact c.stepS
 
